@@ -103,7 +103,7 @@ func init() {
 		return e.hasPrefixTerm(strView(args[0].(Str)), strView(args[1].(Str)))
 	}
 	stubs["bytes.Equal"] = func(e *Exec, fn *ssa.Function, args []Value) Value {
-		return e.viewEq(bytesView(args[0].(Bytes)), bytesView(args[1].(Bytes)))
+		return e.bytesEq(args[0].(Bytes), args[1].(Bytes))
 	}
 	stubs["bytes.HasPrefix"] = func(e *Exec, fn *ssa.Function, args []Value) Value {
 		return e.hasPrefixTerm(bytesView(args[0].(Bytes)), bytesView(args[1].(Bytes)))
